@@ -9,6 +9,7 @@ import (
 	"os/exec"
 	"sort"
 	"strings"
+	"syscall"
 	"testing"
 	"time"
 )
@@ -139,6 +140,17 @@ func TestSim(t *testing.T) {
 		runReplay(t)
 	case "record":
 		runRecord(t)
+	case "plan":
+		// the plan of one run index as generated, without executing it (to look at a run that does not end)
+		p := prop()
+		seed := RunSeed(*fSeed, p.ID(), *fFrom)
+		plan := p.Gen(NewRand(seed))
+		plan.Property, plan.Seed, plan.Index = p.ID(), seed, *fFrom
+		applyOverrides(plan)
+		b, _ := json.MarshalIndent(plan, "", " ")
+		if err := os.WriteFile(*fOut, b, 0o644); err != nil {
+			fatal2("write: %v", err)
+		}
 	case "minimise":
 		runMinimise(t)
 	case "merge":
@@ -295,6 +307,15 @@ func (d *distinctSet) mergeFile(path string) {
 	}
 }
 
+// wallNanos reads the machine's clock directly (never the simulated clock of a synctest bubble).
+func wallNanos() int64 {
+	var tv syscall.Timeval
+	if err := syscall.Gettimeofday(&tv); err != nil {
+		return 0
+	}
+	return tv.Sec*1e9 + tv.Usec*1e3
+}
+
 func runBatch(t *testing.T) {
 	p := prop()
 	start := time.Now()
@@ -307,12 +328,16 @@ func runBatch(t *testing.T) {
 	progress := *fOut + ".progress"
 	seenClass := map[string]int{}
 	stride := max(1, *fStride)
-	lastProgress := time.Time{}
+	// progress is stamped with the machine's clock read through the system call: Heartbeat is called from
+	// inside synctest bubbles, where package time reports the simulated clock (a heartbeat after a jump of
+	// 30 simulated years made every later "500 ms since the last one?" false, the driver's stall watchdog then
+	// saw a worker without progress and the thorough tier of C08 ended with exit 2)
+	lastProgress := int64(0)
 	curIdx := 0
 	Heartbeat = func() {
-		if time.Since(lastProgress) > 500*time.Millisecond {
+		if now := wallNanos(); now-lastProgress > 500e6 {
 			_ = os.WriteFile(progress, []byte(fmt.Sprint(curIdx)), 0o644)
-			lastProgress = time.Now()
+			lastProgress = now
 		}
 	}
 	for idx := *fFrom; idx < *fTo; idx += stride {
@@ -321,11 +346,11 @@ func runBatch(t *testing.T) {
 			w.CutShort = true
 			break
 		}
-		if RaceBuild || time.Since(lastProgress) > 500*time.Millisecond {
+		if now := wallNanos(); RaceBuild || now-lastProgress > 500e6 {
 			// the run in progress, for the parent: should the race detector end this process,
 			// or should the code under test block for real (stall watchdog)
 			_ = os.WriteFile(progress, []byte(fmt.Sprint(idx)), 0o644)
-			lastProgress = time.Now()
+			lastProgress = now
 		}
 		plan, out := execOne(t, p, idx)
 		w.LastIndex = idx
